@@ -180,12 +180,14 @@ Syms == << Sym(<<3,0,0,4>>, 5, << <<2,1>>, <<-3,1>>, RZ >>),
 SymSet == { Syms[k] : k \in 1..4 }
 Poss == << << <<3,2>>, <<-7,4>>, <<5,1>> >>,  << <<-20,1>>, <<11,1>>, <<1,1024>> >>,
            << <<100,1>>, <<250,1>>, <<40,1>> >>,  << <<0,1>>, <<0,1>>, <<1,1>> >> >>
-NG == IF Thorough THEN 4 ELSE 3
+(* quick: every attitude with symmetries/positions 1..3; thorough: one of the four, picked by the attitude *)
+GIs(Q) == IF Thorough THEN { 1 + ((Q[1] + 2*Q[2] + 3*Q[3] + 4*Q[4] + 400) % 4) } ELSE 1..3
 
 (* ---------------------------------------------------------------- lattice            *)
 QuatsQuick == { <<1,0,0,0>>, <<-1,0,0,0>>, <<3,0,0,4>>, <<0,0,0,1>>, <<0,1,0,0>>, <<1,1,1,1>>, <<-1,1,-1,1>>,
                 <<1,2,2,4>>, <<4,-2,1,2>>, <<2,3,6,0>>, <<0,-6,2,3>>, <<1,4,4,4>>, <<2,2,4,5>>, <<-5,4,-2,2>> }
-QuatsThorough == { q \in QLat(4) : Primitive(q) /\ IsSq(QNorm(q)) }
+QuatsBig      == { <<1,2,4,10>>, <<-10,4,-2,1>>, <<2,-1,10,4>>, <<6,6,7,0>>, <<4,4,7,0>>, <<0,-7,4,4>>, <<1,3,3,9>>, <<-5,12,0,0>> }
+QuatsThorough == { q \in QLat(4) : Primitive(q) /\ IsSq(QNorm(q)) } \cup QuatsBig      \* 424 + 8 attitudes, s up to 13
 Quats == IF Thorough THEN QuatsThorough ELSE QuatsQuick
 Level(Q) == Q[2] = 0 /\ Q[3] = 0
 
@@ -229,7 +231,7 @@ Vec(P, Q, gi, vw, mo) ==
 
 (* two-level enumeration: seeds (parameter set, attitude, symmetry/position index), expanded
    by the workers over the (velocity, body rate) x (rotor speeds, commands) scenarios        *)
-Init == \E P \in Params, Q \in Quats, gi \in 1..NG : tv = [op |-> "seed", par |-> P, Q |-> Q, gi |-> gi]
+Init == \E P \in Params, Q \in Quats : \E gi \in GIs(Q) : tv = [op |-> "seed", par |-> P, Q |-> Q, gi |-> gi]
 Next == /\ tv.op = "seed"
         /\ \E sc \in Scen : tv' = Vec(tv.par, tv.Q, tv.gi, VW[sc[1]], Mot(tv.par)[sc[2]])
 Spec == Init /\ [][Next]_tv
@@ -268,6 +270,14 @@ EulerLaw   == IsF => LET w == IV(tv.x.w) IN
                  /\ RVAdd(JMul(TP, tv.xd.wd), RVCross(w, JMul(TP, w))) = MomentRat(TP, tv.x)
                  /\ JMul(TP, tv.xd.wd2) = MomentR2(TP, tv.x)
                  /\ RVDot(w, JMul(TP, tv.xd.wd)) = RVDot(w, MomentRat(TP, tv.x))
+(* one rotor running, body at rest: the angular acceleration lifts that rotor's arm tip ((J w') x r has a
+   positive z component) and yaws the body against the rotor's spin                                    *)
+Lever      == IsF /\ tv.cell = "single" /\ tv.x.w = <<0,0,0>> =>
+                 \A i \in 1..4 : tv.x.om[i] # 0 =>
+                    LET r  == ArmPos(TP, i)
+                        Mh == IF TP.arm[i].r2 THEN JMul(TP, tv.xd.wd2) ELSE JMul(TP, tv.xd.wd)
+                    IN /\ RPos(RSub(RMul(Mh[1], r[2]), RMul(Mh[2], r[1])))
+                       /\ Sgn(JMul(TP, tv.xd.wd)[3][1]) = -TP.dir[i]
 (* equal rotor speeds on a symmetric frame: no moment; with zero body rate no angular acceleration *)
 ZeroMoment == IsF /\ tv.sym /\ AllEq(tv.x.om) =>
                  /\ MomentRat(TP, tv.x) = RZ3 /\ MomentR2(TP, tv.x) = RZ3
